@@ -231,6 +231,9 @@ func (c *Ctx) stableBetween(a, b ssa.Instruction, field string) bool {
 			continue
 		}
 		bwd[x] = true
+		if x == ab && ab != bb {
+			continue // a path that passes through a's block again starts from a later execution of a
+		}
 		st = append(st, x.Preds...)
 	}
 	ia, ib := InstrBlockIndex(a), InstrBlockIndex(b)
